@@ -868,7 +868,7 @@ class LessParser(object):
     def p_variable_neg(self, p):
         """ variable                : '-' variable
         """
-        p[0] = ['-', p[2]]
+        p[0] = NegatedExpression([p[2]], 0)
 
     def p_variable_strange(self, p):
         """ variable                : t_popen variable t_pclose
